@@ -151,6 +151,26 @@ def round_half_even(f: Fraction) -> int:
     return fl if fl % 2 == 0 else fl + 1
 
 
+_NARROW_STEP = []
+
+
+def narrow_line_step() -> int:
+    """the step get_text_heights switches to for a line not wider than the step passed
+    (`if line.baseline.width <= step: step = N`).  The statement fixes the VALUE of every text height (coordinate top
+    to baseline), not how densely a narrow line is sampled, so the oracle takes `N` from the source text (the same
+    `ast` reader the translator uses, not the Lean model) to know at which x positions samples are due; if the
+    statement is no longer there in that shape, the reading of the time of writing (5) is kept."""
+    if not _NARROW_STEP:
+        try:
+            from harness import translate as tr
+            n, _ = tr.assigned_literal('pagexml/analysis/layout_stats.py', 'get_text_heights', 'step',
+                                       under='line.baseline.width <= step')
+            _NARROW_STEP.append(n if isinstance(n, int) and n > 0 else 5)
+        except Exception:
+            _NARROW_STEP.append(5)
+    return _NARROW_STEP[0]
+
+
 def x_monotone(pts) -> bool:
     return all(p[0] <= q[0] for p, q in zip(pts, pts[1:]))
 
@@ -194,7 +214,12 @@ class C19(Check):
         'int(total_avg / total_width) on doubles equals exact truncation (true for |coordinates| < 2^20 and < 2^10 '
         'points: the sum of half-integers is exact below 2^53 and a non-integral N/(2W) is >= 1/(2W) away from every '
         'integer, far more than half an ulp; every real value is compared with an exact Fraction computation); '
-        'sorted(lines) / sorted(regions) return a permutation (the model is handed the order the real sort produced).')
+        'sorted(lines) / sorted(regions) return a permutation (the model is handed the order the real sort produced).'
+        ' The step with which the line-distance functions reach compute_baseline_distances / '
+        'compute_bounding_box_distances (their default, 50), the narrow-line step 5 of get_text_heights, the thresholds '
+        'of the is_*_overlapping calls and the divisor of in_same_column are REGENERATED from the source on every run '
+        '(translate() -> Generated/C19.lean); the proofs use only C19_consts_line_step_nonzero and '
+        'C19_consts_fallback_step_pos about them.')
     assumptions = [
         'IEEE-double instance of mulDivTrunc satisfies MulDivTruncLaws and equals CPython on the expression '
         '(sampled on every run, never proved)',
@@ -207,6 +232,67 @@ class C19(Check):
     ]
     nontrivial_rule = ('distinct inputs by canonical JSON; non-trivial = at least one baseline with two or more '
                        'points of different x, or two or more lines / widths')
+
+    # ---------------------------------------------------------------- constants regenerated from the source
+    def translate(self):
+        """step sizes, the fall-back step of get_text_heights and the overlap thresholds that the model of
+        layout_stats.py depends on, read from the working tree with `ast` on every run"""
+        from harness import translate as tr
+        ls = 'pagexml/analysis/layout_stats.py'
+        dm = 'pagexml/model/pagexml_document_model.py'
+        pm = 'pagexml/model/physical_document_model.py'
+        E = tr.TranslateError
+
+        def named(fn, callee, pos, n=1):
+            a = tr.call_argument(ls, fn, callee, 'step', pos, min_calls=n)
+            if a != ('NAME', 'step'):
+                raise E(f'{fn}: {callee}(... step) is {a!r}, expected the variable step')
+        # `step` travels by name down to interpolate_points
+        named('compute_baseline_distances', 'compute_points_distances', 2)
+        named('compute_bounding_box_distances', 'compute_points_distances', 2)
+        named('compute_points_distances', 'interpolate_baseline_points', 1, 2)
+        named('interpolate_baseline_points', 'interpolate_points', 2)
+        named('sort_coords_above_below_baseline', 'interpolate_baseline_points', 1)
+        named('get_text_heights', 'sort_coords_above_below_baseline', 1)
+        named('get_text_heights', 'interpolate_baseline_points', 1, 2)
+        named('get_line_height_stats', 'get_text_heights', 1)
+        # the callers that do not pass a step: the default of the callee (or the literal they pass) applies
+        sites = {fn: tr.as_int(tr.effective_argument(ls, fn, 'compute_baseline_distances', 'step', 2, ls))
+                 for fn in ('get_line_distances', 'get_textregion_line_distances', 'compute_textregion_distance',
+                            'compute_lines_stats')}
+        if len(set(sites.values())) != 1:
+            raise E(f'compute_baseline_distances is reached with different steps: {sites} (the model has one)')
+        line_step = sites['get_line_distances']
+        bbox_step = tr.as_int(tr.effective_argument(ls, 'get_line_distances', 'compute_bounding_box_distances', 'step', 2, ls))
+        # get_text_heights: `if line.baseline.width <= step: step = N`
+        fallback, _ = tr.assigned_literal(ls, 'get_text_heights', 'step', under='line.baseline.width <= step')
+        fallback = tr.as_int(fallback)
+        v_thr = tr.effective_argument(ls, 'compute_textregion_distance', 'is_vertically_overlapping', 'threshold', 2, dm)
+        h_thr = tr.effective_argument(ls, 'compute_textregions_stats', 'is_horizontally_overlapping', 'threshold', 2, dm)
+        same_col = tr.as_int(tr.literal_in(pm, 'in_same_column',
+                                           'get_horizontal_overlap(element1, element2) > element1.coords.w / _N0'))
+        if same_col <= 0:
+            raise E(f'in_same_column divides the width by {same_col}: not a positive integer')
+        body = tr.HEADER.format(
+            src=f'{ls}: step reaching compute_baseline_distances / compute_bounding_box_distances from the functions '
+                f'that pass none, fall-back step of get_text_heights, thresholds of the is_*_overlapping calls; '
+                f'{pm}: in_same_column') + (
+            'namespace Pagexml.Generated.C19\n\n'
+            '/-- step with which get_line_distances, get_textregion_line_distances, compute_textregion_distance and\n'
+            '    compute_lines_stats reach compute_baseline_distances (they pass none: its default) -/\n'
+            f'def lineDistStep : Int := {tr.lean_int(line_step)}\n\n'
+            '/-- step with which get_line_distances reaches compute_bounding_box_distances -/\n'
+            f'def bboxDistStep : Int := {tr.lean_int(bbox_step)}\n\n'
+            '/-- get_text_heights: `if line.baseline.width <= step: step = N` -/\n'
+            f'def textHeightsFallbackStep : Int := {tr.lean_int(fallback)}\n\n'
+            '/-- threshold (p, q) with which compute_textregion_distance reaches is_vertically_overlapping -/\n'
+            f'def regionVOverlapThr : Int × Int := {tr.lean_ratio(v_thr)}\n\n'
+            '/-- threshold (p, q) with which compute_textregions_stats reaches is_horizontally_overlapping -/\n'
+            f'def regionHOverlapThr : Int × Int := {tr.lean_ratio(h_thr)}\n\n'
+            '/-- in_same_column: `get_horizontal_overlap(e1, e2) > e1.coords.w / N` -/\n'
+            f'def sameColumnDivisor : Int := {tr.lean_int(same_col)}\n\n'
+            'end Pagexml.Generated.C19\n')
+        return {'PagexmlModel/Generated/C19.lean': body}
 
     # ---------------------------------------------------------------- generators
     @staticmethod
@@ -899,7 +985,7 @@ class C19(Check):
                 bad('above-below:invented', 'a returned point is no coordinate point')
             if k == 'rect':
                 w = i['x1'] - i['x0']
-                s = 5 if w <= step else step
+                s = narrow_line_step() if w <= step else step
                 n_samples = len([x for x in range(i['x0'] + 1, i['x1'] + 1) if x % s == 0])
                 hs = out['heights']
                 if i['top'] < i['by'] <= i['bottom']:
